@@ -96,7 +96,8 @@ Inductive action :=
 | AClose (n : nid)                 (* n's error channel is closed: every waiter of n wakes *)
 | AWake (i : nat)                  (* a value SENT on an error channel is received by the i-th waiter *)
 | AProcUnsub (i : nat)             (* [process] takes a woken waiter's event (any of them: their sends race) *)
-| APubKey (k : key) (m : msg).     (* one iteration of [Publish]'s key loop: Load + Notify of every entry *)
+| APub (k : key) (ms : list msg).  (* one key of [Publish] (ms = [m]) or of [PublishArray]: Load(k), then
+                                      [for sub in list { for m in ms { sub.notifier.Notify(k, m) } }] *)
 
 Definition delivery := (nid * key * msg)%type.
 
@@ -113,8 +114,8 @@ Definition step_gen (drain_first : bool) (s : st) (a : action) : st * list deliv
       end
   | AClose n =>
       (mk (regs s) (subq s)
-          (filter (fun e => negb (snd e =? n)) (waiting s))
-          (unsubq s ++ filter (fun e => snd e =? n) (waiting s))
+          (filter (fun e : ev => negb (snd e =? n)) (waiting s))
+          (unsubq s ++ filter (fun e : ev => snd e =? n) (waiting s))
           (n :: closed s), [])
   | AWake i =>
       match nth_error (waiting s) i with
@@ -130,7 +131,7 @@ Definition step_gen (drain_first : bool) (s : st) (a : action) : st * list deliv
           let q1 := if drain_first then [] else subq s in
           (mk (unregister r1 e) q1 (waiting s) (remove_nth (unsubq s) i) (closed s), [])
       end
-  | APubKey k m => (s, map (fun n => (n, k, m)) (lookup (regs s) k))
+  | APub k ms => (s, flat_map (fun n => map (fun m => (n, k, m)) ms) (lookup (regs s) k))
   end.
 
 (** the repaired code *)
@@ -148,7 +149,22 @@ Definition run_orig := run_gen false.
 
 (** [Publish(ns, kind, param, m)] as actions *)
 Definition publish (ns kind param : list N) (m : msg) : list action :=
-  map (fun k => APubKey k m) (publish_keys ns kind param).
+  map (fun k => APub k [m]) (publish_keys ns kind param).
+
+(** [PublishArray(ns, kind, field, messageList)]: [messageMap] groups the messages by key — every
+    message under the namespace-wide key and, when its [param] (the string found in [field]) is
+    not empty, under the specific key, in list order.  The map is then ranged over (in an order
+    the Go runtime chooses), one [APub] per key.  An item is (param, message). *)
+Definition array_events (ns kind : list N) (items : list (list N * msg)) : list ev :=
+  flat_map (fun it =>
+    (if is_empty (fst it) then [] else [(key_prefix ns kind ++ us :: fst it, snd it)])
+    ++ [(key_prefix ns kind, snd it)]) items.
+(** [slice = append(messageMap[key], message); messageMap[key] = slice] is [register] on a
+    table of messages (messages and notifier ids are both numbers) *)
+Definition array_groups (ns kind : list N) (items : list (list N * msg)) : list (key * list msg) :=
+  fold_left register (array_events ns kind items) [].
+Definition array_actions (g : list (key * list msg)) : list action :=
+  map (fun e => APub (fst e) (snd e)) g.
 
 (** ---- vocabulary of the statements ---- *)
 Fixpoint cnt (n : nid) (l : list nid) : nat :=
@@ -156,13 +172,15 @@ Fixpoint cnt (n : nid) (l : list nid) : nat :=
 Fixpoint cntev (e : ev) (l : list ev) : nat :=
   match l with [] => O | x :: t => (if evb x e then 1 else 0) + cntev e t end%nat.
 
-(** messages published under key k, in order *)
-Fixpoint pubs (k : key) (acts : list action) : list msg :=
+(** message blocks published under key k, in order (one block per [APub]) *)
+Fixpoint pub_blocks (k : key) (acts : list action) : list (list msg) :=
   match acts with
   | [] => []
-  | APubKey k' m :: t => if keyb k' k then m :: pubs k t else pubs k t
-  | _ :: t => pubs k t
+  | APub k' ms :: t => if keyb k' k then ms :: pub_blocks k t else pub_blocks k t
+  | _ :: t => pub_blocks k t
   end.
+(** messages published under key k, in order *)
+Definition pubs (k : key) (acts : list action) : list msg := concat (pub_blocks k acts).
 (** messages notifier n was notified of under key k, in order *)
 Fixpoint recv (n : nid) (k : key) (log : list delivery) : list msg :=
   match log with
@@ -170,10 +188,11 @@ Fixpoint recv (n : nid) (k : key) (log : list delivery) : list msg :=
   | (n', k', m) :: t => if (n' =? n) && keyb k' k then m :: recv n k t else recv n k t
   end.
 
-(** [Expand ps rs]: rs is ps with every message repeated at least once (once per registration) *)
-Inductive Expand : list msg -> list msg -> Prop :=
+(** [Expand bs rs]: rs is the blocks bs in order, every block repeated at least once
+    (once per registration; a block of [Publish] is a single message) *)
+Inductive Expand : list (list msg) -> list msg -> Prop :=
 | Expand_nil : Expand [] []
-| Expand_cons m c ps rs : (1 <= c)%nat -> Expand ps rs -> Expand (m :: ps) (repeat m c ++ rs).
+| Expand_cons b c bs rs : (1 <= c)%nat -> Expand bs rs -> Expand (b :: bs) (concat (repeat b c) ++ rs).
 
 (** along the run, [process] handles no unsubscription of (k, n) *)
 Fixpoint no_unsub_of (e : ev) (s : st) (acts : list action) : Prop :=
